@@ -40,6 +40,12 @@ for i, l in enumerate(lines):
             else:
                 parts.append(t); break
         cmd = " ".join(parts)
+        # shell variable assignments on the line(s) just before the command (S=/path ...) belong to it
+        k = i - 1
+        import re
+        while k >= 0 and re.match(r"^[A-Za-z_][A-Za-z0-9_]*=\S+$", lines[k].strip().lstrip("$ ").strip()):
+            cmd = lines[k].strip().lstrip("$ ").strip() + "; " + cmd
+            k -= 1
         break
 if not cmd:
     sys.exit(0)
